@@ -150,7 +150,57 @@ def op_strop(op):
     return {"is_strop": s.is_strop, "instances": sorted(inst)}
 
 
-OPS = {"netlist": op_netlist, "die": op_die, "die_refine": op_die_refine, "alloc": op_alloc, "stog": op_stog, "pb": op_pb, "legal": op_legal, "strop": op_strop}
+def op_mutate_same(op):
+    """loads the SAME design as the probe and then alters the loaded objects through the public API (moves rectangles in place,
+    flips flags, refines, clears maps).  A later fresh load of that design must not see any of it: this is the history that exposes
+    parsed objects shared between loads (memoised parsers, module-level registries)."""
+    from frame.geometry.geometry import Rectangle
+    inner = op["probe"]
+    k = inner["k"]
+    if k in ("netlist", "stog"):
+        from frame.netlist.netlist import Netlist
+        doc = inner["doc"] if k == "netlist" else {"Modules": {"M": {"area": sum(r[2] * r[3] for r in inner["rects"]), "rectangles": [list(r) for r in inner["rects"]]}}}
+        n = Netlist(doc)
+        n.create_squares()
+        for m in n.modules:
+            for r in m.rectangles:
+                r.center.x += 1.0
+                r.fixed = not r.fixed
+                r.location = Rectangle.StogLocation.TRUNK
+                r.shape.w *= 2
+    elif k in ("die", "die_refine"):
+        die, _ = _die(inner)
+        for r in die.blockages + die.specialized_regions + die.ground_regions + die.fixed_regions:
+            r.center.y += 1.0
+            r.fixed = True
+        if die.ground_regions or die.specialized_regions:
+            die.split_refinable_regions(1.5, 16)
+    elif k == "alloc":
+        from frame.allocation.allocation import Allocation
+        from frame.netlist.netlist import Netlist
+        al = inner["alloc"]
+        a = Allocation([[list(c["r"]), dict(c["a"]), c["d"]] for c in al["cells"]])
+        # the way initial_allocation marks the cells of fixed modules
+        c0 = al["cells"][0]["r"]
+        nl = Netlist({"Modules": {"FX": {"fixed": True, "rectangles": [list(c0[:4])]}, "SX": {"area": c0[2] * c0[3], "center": [c0[0], c0[1]]}}})
+        try:
+            a.initial_allocation(nl)
+        except Exception:  # noqa
+            pass
+        for ra in a.allocations:
+            ra.rect.fixed = True
+            ra.rect.center.y += 1.0
+            ra.alloc.clear()
+    elif k == "pb":
+        op_pb(inner)
+    elif k == "legal":
+        op_legal(inner)
+    elif k == "strop":
+        op_strop(inner)
+    return None
+
+
+OPS = {"mutate_same": op_mutate_same, "netlist": op_netlist, "die": op_die, "die_refine": op_die_refine, "alloc": op_alloc, "stog": op_stog, "pb": op_pb, "legal": op_legal, "strop": op_strop}
 
 
 class OpTimeout(BaseException):
